@@ -25,7 +25,7 @@ ENV["GOPROXY"] = "off"
 
 
 def sh(cmd, cwd, timeout=3600):
-    p = subprocess.run(cmd, cwd=cwd, shell=True, stdout=subprocess.PIPE, stderr=subprocess.STDOUT, text=True, env=ENV, timeout=timeout)
+    p = subprocess.run(cmd, cwd=cwd, shell=True, stdout=subprocess.PIPE, stderr=subprocess.STDOUT, text=True, errors="replace", env=ENV, timeout=timeout)
     return p.returncode, p.stdout
 
 
